@@ -21,6 +21,10 @@ EXTENDS Integers, Sequences, FiniteSets, TLC
 -----------------------------------------------------------------------------
 (* Part 1 — values *)
 
+\* TLC keeps [k \in 1..n |-> f(k)] as an unevaluated function and re-evaluates f(k) at every
+\* application; concatenation turns it into an explicit sequence (each element evaluated once).
+Force(s) == s \o <<>>
+
 NoneV == [t |-> "none"]
 BoolV(b) == [t |-> "bool", b |-> b]
 IntV(n) == [t |-> "int", n |-> n]
